@@ -189,6 +189,7 @@ fn check_one(h: &History, c: &Check, initial_poll: Option<Option<u128>>, m: &mut
     }
     // R6: metrics account for exactly the attempts made
     let mut rt_ns: Vec<u128> = vec![];
+    let mut rt_idx: Vec<usize> = vec![];
     let mut rt: Vec<bool> = vec![];
     let mut rpc: Vec<(u64, bool)> = vec![];
     for i in c.start..c.end {
@@ -196,6 +197,7 @@ fn check_one(h: &History, c: &Check, initial_poll: Option<Option<u128>>, m: &mut
             Kind::Metric(MetricRec::UpdateCheckResponseTime { successful, ns }) => {
                 rt.push(*successful);
                 rt_ns.push(*ns);
+                rt_idx.push(i);
             }
             Kind::Metric(MetricRec::RequestsPerCheck { count, successful }) => rpc.push((*count, *successful)),
             _ => {}
@@ -208,22 +210,27 @@ fn check_one(h: &History, c: &Check, initial_poll: Option<Option<u128>>, m: &mut
         } else {
             for (k, x) in ucs.iter().enumerate() {
                 let ok = matches!(x.delivered(), Some(r) if seg::accepted_by_cup(c.cup, r) && seg::is_2xx(r.status));
-                // the sample covers exactly this attempt: from the clock reading taken before the
-                // request was sent to the one taken after its outcome was known
+                // the sample covers exactly this attempt: from a clock reading taken before the request
+                // was sent (after the previous attempt ended) to one taken after its outcome was known
+                // (before the sample was reported); how many readings the library takes is its business
                 if let Some(di) = x.deliver_idx {
-                    let start = (c.start..x.send_idx).rev().find_map(|i| match &h[i].kind {
-                        Kind::ClockRead { which, mono, .. } if which == "mono" => Some(*mono),
-                        _ => None,
-                    });
-                    let end = (di..c.end).find_map(|i| match &h[i].kind {
-                        Kind::ClockRead { which, mono, .. } if which == "mono" => Some(*mono),
-                        _ => None,
-                    });
-                    if let (Some(s0), Some(e0)) = (start, end) {
+                    let lo = if k == 0 { c.start } else { ucs[k - 1].deliver_idx.unwrap_or(c.start) };
+                    let hi = rt_idx.get(k).copied().unwrap_or(c.end);
+                    let monos = |a: usize, b: usize| -> Vec<i64> {
+                        (a..b)
+                            .filter_map(|i| match &h[i].kind {
+                                Kind::ClockRead { which, mono, .. } if which == "mono" || which == "both" => Some(*mono),
+                                _ => None,
+                            })
+                            .collect()
+                    };
+                    let starts = monos(lo, x.send_idx);
+                    let ends = monos(di, hi);
+                    if !starts.is_empty() && !ends.is_empty() {
                         m.count("R6.response_time_values");
-                        let want = (e0 - s0).max(0) as u128;
-                        if rt_ns[k] != want {
-                            m.viol(p, "R6", &site, format!("response-time metric of attempt {} is {} ns, the attempt took {} ns", k + 1, rt_ns[k], want));
+                        let fits = starts.iter().any(|s0| ends.iter().any(|e0| (e0 - s0).max(0) as u128 == rt_ns[k]));
+                        if !fits {
+                            m.viol(p, "R6", &site, format!("response-time metric of attempt {} is {} ns; no pair of clock readings before its request ({:?}) and after its outcome ({:?}) gives that", k + 1, rt_ns[k], starts, ends));
                         }
                     }
                 }
